@@ -64,6 +64,7 @@ def install(reg):
         return [("seeds_are_representatives", S.IsSDR(*args_of(o, n), RES2.get(r, 0))),
                 ("sets_match_seeds", z3.Implies(z3.Not(OptLV.is_none(RES2.get(r, 1))), S.SetsOf(N(o), o.space[n], RES2.get(r, 0), OptLV.val(RES2.get(r, 1))))),
                 ("sets_present_unless_seeds_only", z3.Implies(z3.Not(c.seeds_only), z3.Not(OptLV.is_none(RES2.get(r, 1))))),
+                ("representatives_are_kept_in_order", z3.Implies(S.IsSDR(*args_of(o, n), c.candidate_states), RES2.get(r, 0) == c.candidate_states)),
                 ("only_percolation_caches_filled", structure_unchanged(v, o))] + [("inv." + nm, g) for nm, g in S.inv(v)]
 
     reg.add(Contract(
@@ -74,7 +75,7 @@ def install(reg):
                   lambda c: S.Covers(*args_of(c.sd, c.node_id), c.candidate_states)],
         modifies={"sd": CACHEF},
         ensures=[(nm, pick(cas_post, nm)) for nm in ["seeds_are_representatives", "sets_match_seeds", "sets_present_unless_seeds_only",
-                                                      "only_percolation_caches_filled"] + ["inv." + x for x in INVN]],
+                                                      "representatives_are_kept_in_order", "only_percolation_caches_filled"] + ["inv." + x for x in INVN]],
         note="exact filtering of candidates by symbolic reachability (AEON set operations assumed); body verification in progress",
     ))
 
@@ -151,4 +152,44 @@ def install(reg):
                                                                   c.self.pbn == c.old.self.pbn, c.self.pnfvs == c.old.self.pnfvs))]},
         ensures=[(nm, pick(nas_post, nm)) for nm in ["result_is_system_of_representatives", "cached_afterwards", "known_seeds_returned_unchanged", "frame"] + ["inv." + x for x in INVN]],
         local_types={"seeds": OptLS, "candidates": LS, "sets": LV},
+    ), method_of="SD")
+
+
+def install_sets(reg):
+    INVN = [nm for nm, _ in S.inv(M.View(_dummy_ho()))]
+    pick = lambda fn, nm: (lambda c: dict(fn(c))[nm])
+
+    def cache_frame(v, o, n, fields):
+        keep = [f for f in ("cand", "seeds", "sets") if f not in fields]
+        return z3.And(v.K == o.K, v.index == o.index, S.frame_edges(v, o), v.net == o.net, v.sym == o.sym, v.pn == o.pn,
+                      S.frame_nodes(v, o, fields=("space", "expanded", "skipped", "parent", "succsig", "depth")),
+                      S.frame_nodes(v, o, except_ids=(n,), fields=("cand", "seeds", "sets")),
+                      *[getattr(v, f)[n] == getattr(o, f)[n] for f in keep])
+
+    def post(c):
+        v, o, n = c.self, c.old.self, c.node_id
+        return [("sets_of_the_nodes_seeds_in_order", z3.And(z3.Not(OptLS.is_none(v.seeds[n])), S.SetsOf(N(o), o.space[n], OptLS.val(v.seeds[n]), c.result))),
+                ("seeds_are_representatives", S.IsSDR(*args_of(o, n), OptLS.val(v.seeds[n]))),
+                ("cached_afterwards", v.sets[n] == OptLV.some(c.result)),
+                ("known_sets_returned_unchanged", z3.Implies(z3.Not(OptLV.is_none(o.sets[n])), z3.And(c.result == OptLV.val(o.sets[n]), v.seeds[n] == o.seeds[n]))),
+                ("frame", cache_frame(v, o, n, ("cand", "seeds", "sets")))] + [("inv." + nm, g) for nm, g in S.inv(v)]
+
+    def unchanged_but_caches(c):
+        return [("nothing_cached", z3.And(structure_unchanged(c.self, c.old.self)))] + [("inv." + x, g) for x, g in S.inv(c.self)]
+
+    reg.add(Contract(
+        "biobalm.succession_diagram.SuccessionDiagram.node_attractor_sets",
+        params=[("self", SD), ("node_id", TInt), ("compute", TBool)], defaults={"compute": False},
+        result_type=LV, properties=("C12", "C14", "C16"),
+        requires=[lambda c: S.inv_all(c.self), lambda c: S.valid(c.self, c.node_id)],
+        modifies={"self": CACHEF + ["cand", "seeds", "sets"]},
+        may_raise={"RuntimeError": {"modifies": {"self": CACHEF}, "when": lambda c: c.compute},
+                   "KeyError": {"only_when": lambda c: z3.And(z3.Not(c.compute), OptLV.is_none(c.self.sets[c.node_id]))}},
+        raises={"RuntimeError": [(nm, pick(unchanged_but_caches, nm)) for nm in ["nothing_cached"] + ["inv." + x for x in INVN]],
+                "KeyError": [("nothing_changed", lambda c: z3.And(structure_unchanged(c.self, c.old.self), c.self.ppn == c.old.self.ppn,
+                                                                  c.self.pbn == c.old.self.pbn, c.self.pnfvs == c.old.self.pnfvs))]},
+        ensures=[(nm, pick(post, nm)) for nm in ["sets_of_the_nodes_seeds_in_order", "seeds_are_representatives", "cached_afterwards",
+                                                  "known_sets_returned_unchanged", "frame"] + ["inv." + x for x in INVN]],
+        ann_types={"tuple[list[BooleanSpace],list[VertexSet]|None]": RES2},
+        local_types={"sets": OptLV, "seeds": LS, "result": RES2},
     ), method_of="SD")
